@@ -52,13 +52,18 @@ def fragment(rng, g, uid, has_onset):
     if x < 0.30:
         return rng.choice(c07.VALID)
     if x < 0.50:
-        return g.render(g.conforming(False))
+        for _ in range(6):          # the long-form spellings of deep tags make long strings: keep cells short
+            t = g.render(g.conforming(False))
+            if len(t) <= 90:
+                return t
+        return rng.choice(c07.VALID)
     if x < 0.58:
         return rng.choice(INVALID)
     if x < 0.66:
         kind = rng.choice(INJECT)
         try:
             t = g.inject(kind, g.conforming(False), False) if kind in c01.SPEC else None
+            t = t if t and len(t) <= 140 else None
         except Exception:
             t = None
         return t if t else rng.choice(INVALID)
